@@ -3,7 +3,7 @@ import setcheck
 
 
 def check(run, tier, seed, replay=None):
-    setcheck.set_check(run, "C06", tier, seed, replay, 1500, 25000, "judge06",
+    setcheck.set_check(run, "C06", tier, seed, replay, 1500, 25000, "judge06g",
                        "C06 status claims more than the pass observed (Available/controllerOf/Succeeded/InTransition/Archived)",
                        "seeded random worlds over all lifecycle states with stored conditions for older generations, Succeeded already set, "
                        "stale controllerOf; every status request compared with the members' states after the same pass")
